@@ -25,6 +25,22 @@ _POW = z3.Function('pow', z3.RealSort(), z3.RealSort(), z3.RealSort())
 _LOG = z3.Function('log', z3.RealSort(), z3.RealSort())
 
 
+def _check(s, timeout_ms):
+    """s.check() with a watchdog: nlsat does not always honour the soft timeout, so the context is
+    interrupted shortly after it (the answer is then `unknown`)"""
+    import threading
+    timer = threading.Timer(timeout_ms / 1000.0 + 1.0, s.ctx.interrupt)
+    timer.daemon = True
+    timer.start()
+    try:
+        try:
+            return s.check()
+        except z3.Z3Exception:
+            return z3.unknown
+    finally:
+        timer.cancel()
+
+
 class Z:
     """emit terms to z3; sqrt is purified: fresh s with s >= 0 and s*s = arg (side list)"""
 
@@ -249,7 +265,7 @@ def valid(goal, assume=(), timeout_ms=20000, defined=True, extra_side=(), axioms
         s.add(a)
     s.add(z3.Not(g))
     t0 = time.time()
-    r = s.check()
+    r = _check(s, timeout_ms)
     dt = time.time() - t0
     STATS['queries'] += 1
     STATS['solver_s'] += dt
@@ -259,7 +275,11 @@ def valid(goal, assume=(), timeout_ms=20000, defined=True, extra_side=(), axioms
     if r == z3.sat:
         names = tm.variables(roots)
         return Result('cex', env=model_to_env(s.model(), names), seconds=dt)
-    return Result('unknown', seconds=dt, note=s.reason_unknown())
+    try:
+        why = s.reason_unknown()
+    except Exception:
+        why = 'interrupted'
+    return Result('unknown', seconds=dt, note=why)
 
 
 def satisfiable(conds, timeout_ms=10000, defined=True):
@@ -278,7 +298,7 @@ def satisfiable(conds, timeout_ms=10000, defined=True):
     for a in AA + z.side:
         s.add(a)
     t0 = time.time()
-    r = s.check()
+    r = _check(s, timeout_ms)
     dt = time.time() - t0
     STATS['queries'] += 1
     STATS['solver_s'] += dt
@@ -336,6 +356,50 @@ def witness(assume, sampler, tries=400, roots=()):
                 isinstance(val[t.id], float) and (math.isnan(val[t.id]) or math.isinf(val[t.id])) for t in order):
             return env
     return None
+
+
+def guided_cex(goal, assume, sampler, tries=120, timeout_ms=3000, defined=True):
+    """Simulation-guided model search: random dyadic points *propose* a falsifying assignment
+    (float evaluation); the proposal is then *decided* by z3 on the exact terms with every input
+    pinned to the proposed rational value.  Returns an env or None.  (z3's nlsat is weak at
+    finding models of large non-linear terms on its own; pinned, the query is an exact evaluation.)"""
+    assume = [a for a in assume if a is not tm.TRUE]
+    roots = [goal] + assume
+    order = tm.topo(roots)
+    names = [t.v for t in order if t.op == 'var']
+    if not names or any(t.op == 'uf' for t in order):
+        return None, None
+    tested = 0
+    fallback = None
+    for _ in range(tries):
+        env = sampler(names)
+        env = {k: round(v * 64) / 64.0 for k, v in env.items()}
+        val = tm.evalf(order, env)
+        if not all(val[a.id] is True for a in assume):
+            continue
+        if val[goal.id] is not False:
+            continue
+        if any(isinstance(val[t.id], float) and (math.isnan(val[t.id]) or math.isinf(val[t.id])) for t in order):
+            continue
+        # margin: skip proposals that are within round-off of satisfying the goal
+        if goal.op in ('eq', 'le', 'lt'):
+            a, b = val[goal.a[0].id], val[goal.a[1].id]
+            if abs(a - b) <= 1e-7 * max(1.0, abs(a), abs(b)):
+                continue
+        tested += 1
+        if tested > 2:
+            break
+        pins = [tm.eq(tm.var(k), tm.const(Fraction(v))) for k, v in env.items()]
+        r = valid(goal, assume + pins, timeout_ms, defined=defined)
+        if r.verdict == 'cex':
+            return r.env, 'z3-pinned'
+        if r.verdict == 'unknown' and fallback is None:
+            # exact evaluation with nested algebraic numbers did not finish: keep the proposal; it is
+            # only ever reported after the replay on the real build reproduces it
+            fallback = {k: Fraction(v) for k, v in env.items()}
+    if fallback is not None:
+        return fallback, 'float-proposal'
+    return None, None
 
 
 # ----------------------------------------------------------------------------------------
